@@ -1,8 +1,10 @@
 """C09 — counterfactual transportability (ctfTRu / ctfTR, Correa, Lee & Bareinboim 2022, Algorithms 2-4).
 
 Correspondence: the complete procedures are compared with the Lean model (Y0.Model.CtfTr) on every case: the verdict of
-the input validators (error category), and for accepted inputs FAIL / Zero / the answer of Algorithm 2 (`transport
-ctf_uncond`: expression and simplified event) resp. Algorithm 3 (`ctftr cond`: the derivation of D* from the ancestral
+the input validators (error category), and for accepted inputs FAIL / Zero / the answer of Algorithm 2 (`ctftr
+uncond`: expression and simplified event, plus the flag `CtfTr.ctfTRuInClass` = "inside the decidable hypotheses of the
+proved value clause ctfTRu_sound_partial": an in-class case whose value the exact oracle rejects is a disagreement,
+whatever known-finding class its signature falls in) resp. Algorithm 3 (`ctftr cond`: the derivation of D* from the ancestral
 components, Algorithm 2 on D* with its own validator, the Fraction of line 4, the returned event, the five final checks;
 crashes of the known findings included, as category `internal`).  Expressions are compared structurally, then by exact
 value on the case's model family; events as multisets.  The models of SIMPLIFY, the ctf-factor factorisation and Tian's
@@ -69,8 +71,29 @@ RULE = ("target ADMGs with 2-5 nodes x 1-2 domains (selection diagram = the targ
         "a wrong edge or a missing vertex, ...). A case is non-trivial when validation passes, the graph "
         "has >=3 nodes and some event variable has a subscript.")
 ASSUMPTIONS = [
-    "ctfTRu_sound / ctfTR_sound (value clause) are OPEN and false of the current code on the open findings' inputs: "
-    "Props/C09 proves the composition skeleton only; the clause rests on the correspondence + exact functional-SCM oracle",
+    "value clause, Algorithm 2: PROVED (Props/C09Sound ctfTRu_sound_partial; no hypothesis about any part of the algorithm) "
+    "for validated inputs built by the public wrapper without a self-intervened variable whose simplified event has no "
+    "valueless item and is in the decidable class CtfTr.ctfSoundClass (readable, not multi-world / literal-bound / "
+    "outcome-parent-value (C19) / starred-literal-bound), for every family of functional SCMs compatible with the declared "
+    "domains (Spec/CtfFamilySpec: positive discrete models, inert selection nodes, a source domain differs from the target "
+    "only in the mechanisms at the children of its selection nodes and its policy variables; a differing noise distribution "
+    "is represented by extra exogenous variables the target does not read; the declared distribution of each domain is the "
+    "joint P^k(V) of its regular variables) and every valuation that carries the returned event's values (Ctf.EventReading; "
+    "exists iff no name receives two values: ctf_reading_exists); with valueless items read as free variables: "
+    "ctfTRu_sound_free_partial. FALSE outside the class (open findings value:two_values / multi_world / literal_bound / "
+    "reflexive). The theorem is TIED to the oracle on every run: the driver reports CtfTr.ctfTRuInClass for every answered "
+    "unconditional case, and an in-class case on which the exact oracle rejects the value is a disagreement, whatever "
+    "known-finding class its signature falls in (seed 0: 4814 of 6728 answered unconditional cases are in the class)",
+    "value clause, Algorithm 3: ctfTR_sound is OPEN; ctfTR_sound_of_parts reduces it (normalisation on top of ctfTRu_sound_fun) "
+    "to two named identities about J(tau) = P*_tau(D* = tau): sum over V(D*) minus (V(Y*) u V(X*)) of J times c = P*(y*, x*) and "
+    "sum over V(D*) minus V(X*) of J times c = P*(x*), c the probability of the conditions whose ancestral component holds no "
+    "outcome (marginalisation of the valueless ancestors + independence across ancestral components, Correa et al. Lemma 3); "
+    "false of the current code on the open findings cond:value:outcome-lookup-miss / outcome-also-condition; decided on "
+    "every run by the correspondence with the complete model of Algorithm 3 + the exact oracle",
+    "reading of a valueless item of the QUERY: the oracle reads it as 'equal to its base value' (the item stays a free variable "
+    "of the answer), C19 and the Lean theorems read it as 'no constraint'; the two agree when the query has no valueless "
+    "item (the class of the tie); a valueless copy absorbed by a valued copy of the same variable is attributed to "
+    "value:two_values by the oracle",
     "the models of SIMPLIFY, counterfactual ancestors, ancestral components, ctf-factors and IDENTIFY are the `ctf` / `tian` "
     "families' (C19, C17); Algorithm 3 is modelled completely (CtfTr.ctfTR: line2C, line4C, finalChecks) and compared with "
     "conditional_cft on every conditional case (verdict, expression, returned event)",
@@ -108,7 +131,7 @@ ASSUMPTIONS = [
     "by the correspondence only (tools/c09_mutants.py lists these as `equiv`); inputs with an invalid topological order are "
     "outside the quantifier, so a validator that stops checking the order is not detected",
 ]
-LEANCHECK_MODULES = ["Y0.Model.CtfTr", "Y0.Props.C09"]
+LEANCHECK_MODULES = ["Y0.Model.CtfTr", "Y0.Props.C09", "Y0.Props.C09Sound"]
 EXHAUSTIVE = {"quick": False, "thorough": False}
 ESCALATED_TIER = "escalated"
 
@@ -1246,7 +1269,7 @@ MANIFEST = {
     "text": ("Partial. Lean theorems about the model Y0.Model.CtfTr of api.py (validators of ctfTRu / ctfTR as decision "
              "functions, Algorithm 4, Algorithm 2 composed from the `ctf` family's models of SIMPLIFY / counterfactual "
              "ancestors / ancestral components / ctf-factors and the `tian` family's model of IDENTIFY; Algorithm 3 complete: "
-             "derivation of D*, Algorithm 2 on it, line 4 and the five final checks), 40 theorems in Props/C09: the validators reject with the documented classes only and an accepted "
+             "derivation of D*, Algorithm 2 on it, line 4 and the five final checks), 50 theorems in Props/C09 + Props/C09Sound: THE VALUE CLAUSE FOR ALGORITHM 2 IS PROVED (ctfTRu_sound_partial): whenever ctfTRu answers (x, ev) for a validated input without a self-intervened variable whose simplified event has no valueless item and lies in the decidable class ctfSoundClass, then in every family of functional SCMs compatible with the target graph and the declared domains, at every valuation carrying the returned event's values, x evaluated on the declared domain distributions equals the target probability of the queried event - composed, with no link left as a hypothesis, from C19 (SIMPLIFY preserves the probability; the ctf-factor factorisation, here as a sum of products of c-factors: ctf_factorisation_cfactors), the syntactic link between line 2 of Algorithm 2 and the factorisation, C17 (IDENTIFY, c-factor routines) through sigmaTR_sound_family (Algorithm 4 returns Q*[district] of the TARGET model) and the transportability lemma cfactor_transportability (no selection node into the district and no policy variable in it => same c-factor in source and target), with a concrete two-domain family as non-vacuity witness; ctfTRu_sound_free_partial / ctfTRu_sound_fun cover valueless items read as free variables; ctfTR_sound_of_parts reduces the value clause of Algorithm 3 to two named marginalisation-and-independence identities. the validators reject with the documented classes only and an accepted "
              "input has the stated shape (validateU_error_class, validateC_error_class, validateU_accepts, validateC_strict); "
              "an 'invalid input' outcome is exactly a rejection by the procedure's own validator and an accepted input is "
              "answered, refused, or ends in a non-validation error (ctfTRu_invalid_iff, ctfTRu_trichotomy, "
@@ -1264,9 +1287,8 @@ MANIFEST = {
              "Zero() and mentions only graph vertices and variables of the domain distributions), and an "
              "expression returned by Algorithm 4 denotes Q[district] of the domain's model (sigmaTR_sound, via C17 "
              "cfactor_sound / tian_sound). NOT "
-             "proved, and FALSE of the current code on the inputs of the 17 open findings (known_findings.jsonl, class keys "
-             "with minimal witnesses): the value clause (ctfTRu_sound / ctfTR_sound) and the absence of non-validation errors "
-             "(ctf_no_internal_error in full: false on the crash classes of the findings, open on two further input classes of Algorithm 3). These clauses are decided on every run by the correspondence (validators exact; "
+             "proved: the value clause outside ctfSoundClass (FALSE of the current code on the inputs of the open findings value:*), the value clause of Algorithm 3 (ctfTR_sound: reduced to two named identities; false on the findings cond:value:outcome-*), and the absence of non-validation errors in full "
+             "(ctf_no_internal_error: false on the crash classes of the findings, open on two further input classes of Algorithm 3). These clauses are decided on every run by the correspondence (validators exact; "
              "Algorithms 2 and 3: verdict, returned event and exact value of the expression) and by the exact functional-SCM "
              "oracle (noise-space enumeration of P*(event), policies as fresh mechanisms): trichotomy, zero-soundness and "
              "value on every answered case."),
@@ -1279,6 +1301,8 @@ MANIFEST = {
              "looked up under a non-stored name) together with the finding's kind of outcome (wrong value / wrong zero / the "
              "exception class at the named check) are attributed to that finding; any other "
              "failing input is reported as a violation with its exact replay."),
-    "technique": ("Lean 4 theorems on validator decision functions and on the algorithm skeleton (composition with C19 and C17 "
-                  "models) + differential correspondence + exact functional-SCM oracle (trichotomy, zero-soundness, value)"),
+    "technique": ("Lean 4 theorems on validator decision functions, on the algorithm skeleton and on the VALUE of the answer of "
+                  "Algorithm 2 over families of functional SCMs (composition with C19 and C17) + differential correspondence with the "
+                  "complete models of Algorithms 2-4 + exact functional-SCM oracle (trichotomy, zero-soundness, value, returned event), "
+                  "theorem and oracle tied on every in-class case"),
 }
